@@ -302,13 +302,17 @@ class Ref:
                     return r
             return None
         if k == "union":
-            first = None
+            same_kind = None
             for alt in t[1]:
                 r = self.conforms(v, alt, reg, path)
                 if r is None:
                     return None
-                first = first or r
-            return ("union-holds-no-alternative", path)
+                # the alternative of the value's own kind explains the failure better than "no alternative"
+                core = alt[1] if alt[0] == "ann" else alt
+                if same_kind is None and ((core[0] == "tuple" and type(v) is tuple) or (core[0] == "list" and isinstance(v, list))
+                                          or (core[0] == "cls" and self.cls_of(v) is not None)):
+                    same_kind = r
+            return same_kind or ("union-holds-no-alternative", path)
         if k == "ann":
             r = self.conforms(v, t[1], reg, path)
             if r and t[1][0] in ("tuple", "list") and not r[0].endswith("@annotated") and r[1] == path:
